@@ -24,7 +24,7 @@ from vlib.ref import units_ref
 ID = "C08"
 LEVEL = "exploration"
 RULE = ("Hypothesis-generated recipes: referenced array of rank 1-3, extents 1-6, distinct integer data; per "
-        "axis sampled(interval, offset, unit) / range(strictly ascending ticks, unit; as many, fewer or more "
+        "axis sampled(interval, offset, unit) / range(ascending ticks incl. repeated values, unit; as many, fewer or more "
         "ticks than stored samples) / set(no labels or n labels); Tag with position of length 1..rank, extent "
         "none or same length (zeros allowed), units none or one per position entry (equal to, or any other of "
         "the 21 metric prefixes of, the axis unit; '' for set axes; rarely a unit of another quantity), both "
@@ -44,7 +44,7 @@ RULE = ("Hypothesis-generated recipes: referenced array of rank 1-3, extents 1-6
 ASSUMPTIONS = [
     "tag units are empty or one per position entry; when a tag has units every sampled/range axis it addresses "
     "has a unit and set axes get '' (docs: 'a unit for each dimension'; the library refuses anything else)",
-    "extents are >= 0; sampling intervals > 0; ticks strictly ascending; feature arrays linked as 'tagged' have "
+    "extents are >= 0; sampling intervals > 0; ticks non-descending (what the setter accepts; repeated values included); feature arrays linked as 'tagged' have "
     "at least as many axes as the position has entries",
     "a set axis without labels and a sampled axis define unboundedly many samples 0,1,2,...; a range axis defines "
     "its ticks, a labelled set axis its labels (they may be fewer or more than the stored samples)",
@@ -69,9 +69,9 @@ DEC_DT = [0.1, 0.3, 1e-3, 2.5e-5, 0.7, 1.0]
 DEC_DT_MODERATE = [0.1, 0.3, 0.7, 1.0]
 DEC_OFF = [None, 0.05, -0.7, 2.0, 0.0, 0.1, 1.3]
 DY_T0 = [0.0, 0.0, 1.0, -2.0, 0.125, 10.5, -0.5]
-DY_GAP = [0.125, 0.25, 0.5, 1.0, 1.0, 1.5, 2.0, 4.25]
+DY_GAP = [0.125, 0.25, 0.5, 1.0, 1.0, 1.5, 2.0, 4.25, 0.0]      # 0.0: a repeated tick (the setter accepts non-descending ticks)
 DEC_T0 = [0.0, 0.1, -0.7, 7.125, 1.3]
-DEC_GAP = [0.1, 0.3, 0.25, 1.7, 1.0, 0.05]
+DEC_GAP = [0.1, 0.3, 0.25, 1.7, 1.0, 0.05, 0.0]
 LINKS = ["tagged", "indexed", "untagged"]
 SHRINK_HINTS = {"keep_keys": ["t", "unit", "link", "kind", "rule"]}
 
@@ -359,7 +359,21 @@ def build(case, blk):
         if case.get("pos1d"):
             parr = parr[:, 0]
             earr = None if earr is None else earr[:, 0]
-        tag = blk.create_multi_tag("tag", "c08", parr, earr)
+        pcal = case.get("pcal")
+        if pcal:
+            # positions / extents kept in calibrated arrays (e.g. clock counts with a conversion): the region is
+            # defined by what the arrays READ (raw * 2, exact in binary64), not by the stored raw numbers
+            pa = blk.create_data_array("tag-pos", "c08.positions", data=parr / 2.0 if pcal in ("pos", "both") else parr)
+            if pcal in ("pos", "both"):
+                pa.polynom_coefficients = (0.0, 2.0)
+            ea = None
+            if earr is not None:
+                ea = blk.create_data_array("tag-ext", "c08.extents", data=earr / 2.0 if pcal in ("ext", "both") else earr)
+                if pcal in ("ext", "both"):
+                    ea.polynom_coefficients = (0.0, 2.0)
+            tag = blk.create_multi_tag("tag", "c08", pa, ea)
+        else:
+            tag = blk.create_multi_tag("tag", "c08", parr, earr)
     if case.get("units") is not None:
         tag.units = list(case["units"])
     tag.references.append(ref)
@@ -573,6 +587,8 @@ def run_case(case, ctx, bench):
     if mt:
         classes.append("mtag:n=%d" % n)
         classes.append("mtag:positions-%s" % ("1d" if case.get("pos1d") else "2d"))
+        if case.get("pcal"):
+            classes.append("mtag:calibrated-positions/extents:" + case["pcal"])
         if case.get("pos1d") and len(rshape) > 1:
             classes.append("mtag:positions-1d-on-rank>1")
 
@@ -643,7 +659,7 @@ def _valid_array(spec):
                 return False
         elif t == "range":
             tk = ax["ticks"]
-            if not tk or not all(_num(x) for x in tk) or any(b <= a for a, b in zip(tk, tk[1:])):
+            if not tk or not all(_num(x) for x in tk) or any(b < a for a, b in zip(tk, tk[1:])):
                 return False
         elif t == "set":
             nl = ax.get("labels")
@@ -757,10 +773,10 @@ def coord_at(g, u):
     tk = g["ticks"]
     last = len(tk) - 1
     if u <= 0:
-        gap = tk[1] - tk[0] if last >= 1 else 1.0
+        gap = (tk[1] - tk[0] if last >= 1 else 1.0) or 1.0
         return tk[0] + u * gap
     if u >= last:
-        gap = tk[last] - tk[last - 1] if last >= 1 else 1.0
+        gap = (tk[last] - tk[last - 1] if last >= 1 else 1.0) or 1.0
         return tk[last] + (u - last) * gap
     i = int(math.floor(u))
     return tk[i] + (u - i) * (tk[i + 1] - tk[i])
@@ -977,6 +993,7 @@ def recipes(draw):
             case["pos1d"] = draw(st.sampled_from([True] * 7 + [False] * 3 if rank == 1 else [True] * 3 + [False] * 7))
         else:
             case["pos1d"] = False
+        case["pcal"] = draw(st.sampled_from([None, None, None, None, "pos", "ext", "both"]))
     return case
 
 
